@@ -82,10 +82,22 @@ def resolveP (d : Delivered) (t : Ty) (kind : String) : String :=
   | "stale", _ => "stale-nonce"
   | _, _ => ""
 
-def PState.finish (p : PState) (o : POut) : PState × String :=
-  let v := { o.srv with st := normalize o.srv.st }
-  let d := o.sent.foldl (fun d w => d.push w.ty w.nonce) p.delivered
-  ({ p with srv := v, delivered := d }, s!"sent={showPWires o.sent} calls={showCalls o.calls} | {showStateP v.st}")
+def showInfo (i : CallInfo) : String :=
+  "{+" ++ encSet i.sub ++ ";-" ++ encSet i.unsub ++ ";i=" ++ encSet i.init ++ ";f=" ++ boolTok i.forced ++ "}"
+
+/-- Calls with what the generator was told besides the watched resource (`infos`: one per call, in call order). -/
+def showCallsI (cs : List Call) (infos : List CallInfo) : String :=
+  if cs.isEmpty then "-" else
+  ";".intercalate ((cs.zip (infos ++ cs.map (fun _ => infoPush true))).map fun (c, i) => s!"{c.1.tok}:{encSet c.2}{showInfo i}")
+
+def PState.errs (p : PState) : Ty → Bool := fun t => (p.look t).fails
+
+/-- The types are printed in push order; in the `tproc` stream the one type of the case is printed as `T`. -/
+def PState.finishE (p : PState) (o : POutE) (infos : List CallInfo) : PState × String :=
+  let v := { o.out.srv with st := normalize o.out.srv.st }
+  let d := o.out.sent.foldl (fun d w => d.push w.ty w.nonce) p.delivered
+  ({ p with srv := v, delivered := d },
+   s!"sent={showPWires o.out.sent} calls={showCallsI o.out.calls infos} err={boolTok o.err} | {showStateP v.st}")
 
 def stepProc (p : PState) (toks : List String) : PState × String :=
   match toks with
@@ -95,36 +107,43 @@ def stepProc (p : PState) (toks : List String) : PState × String :=
     | some t =>
       let o : C03.GenOut :=
         if kind == "plain" then
-          { resNil := res == "nil", res := decPRes res, delNil := true, deleted := [], usedDelta := false,
+          { resNil := res == "nil" || res == "err", res := decPRes res, delNil := true, deleted := [], usedDelta := false,
             incremental := tokBool inc }
         else
-          { resNil := res == "nil", res := decPRes res, delNil := del == "nil",
+          { resNil := res == "nil" || res == "err", res := decPRes res, delNil := del == "nil",
             deleted := decList (if del == "nil" then "-" else del), usedDelta := tokBool used, incremental := tokBool inc }
-      ({ p with scripts := (t, { echo := res == "echo", out := o }) :: p.scripts.filter (fun q => q.1 != t) }, "ok")
+      ({ p with scripts := (t, { echo := res == "echo", out := o, fails := res == "err" }) :: p.scripts.filter (fun q => q.1 != t) }, "ok")
   | ["fail", v] => ({ p with srv := { p.srv with fail := tokBool v } }, "ok")
   | ["req", ty, names, nk, err] =>
     match Ty.ofTok ty with
     | none => (p, "bad-op")
     | some t =>
       let r : Req := { ty := t, names := decList names, nonce := resolveP p.delivered t nk, err := decErr err }
-      match (if p.grpc then procSotwGrpc p.gen p.srv r else procSotw p.gen p.srv r) with
+      let sub := match shouldRespond p.srv.st r with
+        | .out true sub _ => sub
+        | _ => []
+      match procSotwE p.grpc p.errs p.gen p.srv r with
       | none => (p, "crash")
-      | some o => p.finish o
+      | some o => p.finishE o [infoSotw sub]
   | ["needs", v] => ({ p with needs := tokBool v }, "ok")
   | ["version", _] => (p, "ok")
-  | ["push"] => if p.needs then p.finish (pushConnSotwC p.gen p.srv) else p.finish { srv := p.srv, sent := [], calls := [] }
-  | ["fpush"] => if p.needs then p.finish (pushConnSotwC p.gen p.srv) else p.finish { srv := p.srv, sent := [], calls := [] }
+  | [op] =>
+    let idle : POutE := { out := { srv := p.srv, sent := [], calls := [] }, err := false }
+    let infos (f : Bool) : List CallInfo := C03.pushOrder.map (fun _ => infoPush f)
+    if op == "push" || op == "apush" then p.finishE (if p.needs then pushAllSotwE p.errs p.gen p.srv C03.pushOrder else idle) (infos false)
+    else if op == "fpush" then p.finishE (if p.needs then pushAllSotwE p.errs p.gen p.srv C03.pushOrder else idle) (infos true)
+    else if op == "dpush" || op == "dapush" then p.finishE (if p.needs then pushAllDeltaE p.errs p.gen p.srv C03.pushOrder else idle) (infos false)
+    else if op == "dfpush" then p.finishE (if p.needs then pushAllDeltaE p.errs p.gen p.srv C03.pushOrder else idle) (infos true)
+    else (p, "bad-op")
   | ["dreq", ty, sub, unsub, init, nk, err] =>
     match Ty.ofTok ty with
     | none => (p, "bad-op")
     | some t =>
       let r : DReq := { ty := t, sub := decList sub, unsub := decList unsub, init := decList init,
                         nonce := resolveP p.delivered t nk, err := decErr err }
-      match procDelta p.gen p.srv r with
+      match procDeltaE p.errs p.gen p.srv r with
       | none => (p, "crash")
-      | some o => p.finish o
-  | ["dpush"] => if p.needs then p.finish (pushConnDeltaC p.gen p.srv) else p.finish { srv := p.srv, sent := [], calls := [] }
-  | ["dfpush"] => if p.needs then p.finish (pushConnDeltaC p.gen p.srv) else p.finish { srv := p.srv, sent := [], calls := [] }
+      | some o => p.finishE o [infoDelta r, infoPush true]
   | _ => (p, "bad-op")
 
 /-! ### stream recv -/
@@ -204,6 +223,7 @@ def stepP (p : PState) (toks : List String) : PState × String :=
   | ["case", _, "proc"] => ({ base := p.base, stream := "proc" }, "ok")
   | ["case", _, "proc", "grpc"] => ({ base := p.base, stream := "proc", grpc := true }, "ok")
   | ["case", _, "dproc"] => ({ base := p.base, stream := "dproc" }, "ok")
+  | ["case", _, "dproc", "grpc"] => ({ base := p.base, stream := "dproc" }, "ok")   -- the delta path does not read IsProxylessGrpc
   | ["case", _, "recv"] => ({ base := p.base, stream := "recv" }, "ok")
   | ["case", _, "dloop", ty] =>
     match Ty.ofTok ty with
